@@ -8,6 +8,7 @@ def nontrivial(h, lines):
 
 def run(ctx):
     cases = S.run_session_check(ctx, "C04")
+    ctx.coverage["submits_after_reconnects_compared"] = S.after_reconnect(ctx, "C04")
     S.session_coverage(ctx, cases, nontrivial, S.GEN_RULE + " Non-trivial: a session in which a task callback fired and a share was accepted; distinct by op list")
 
 
